@@ -198,8 +198,18 @@ class Source:
     def _item_end(self, kw_pos: int) -> tuple:
         bo = find_body_open(self.m, kw_pos)
         if bo < 0:
-            end = self.m.find(";", kw_pos) + 1
-            return -1, end
+            # the `;` that ends a bodiless item is the first one outside brackets (`[T; 5]` has one inside)
+            depth, j = 0, kw_pos
+            while j < len(self.m):
+                c = self.m[j]
+                if c in "([{":
+                    depth += 1
+                elif c in ")]}":
+                    depth -= 1
+                elif c == ";" and depth == 0:
+                    break
+                j += 1
+            return -1, j + 1
         end = match_close(self.m, bo) + 1
         return bo, end
 
